@@ -6,9 +6,10 @@ change, the complete suite passes with the change. meta.json = the agent's descr
 we ran and which of our checks caught it."""
 import glob, json, os, re, shutil, sys
 kept = 0
-for sd in sorted(glob.glob('/tmp/wt-C*/seed/*/')):
-    m = re.match(r'/tmp/wt-(C\d+)/seed/(\d+)/', sd)
-    sid = f"{m.group(1)}-{m.group(2)}"
+for sd in sorted(glob.glob('/tmp/wt-C*/seed/*/') + glob.glob('/tmp/w2-C*/seed/*/')):
+    m = re.match(r'/tmp/(wt|w2)-(C\d+)/seed/(\d+)/', sd)
+    k = int(m.group(3)) + (2 if m.group(1) == 'w2' else 0)
+    sid = f"{m.group(2)}-{k}"
     vlog = f"/tmp/seedlogs/verify/{sid}.log"
     if not os.path.exists(vlog):
         continue
@@ -36,8 +37,9 @@ for sd in sorted(glob.glob('/tmp/wt-C*/seed/*/')):
     try:
         meta = json.load(open(sd + 'meta.json'))
     except Exception as e:
-        meta = {"property": m.group(1), "summary": "(agent meta.json unreadable)"}
-    meta['property'] = m.group(1)
+        meta = {"property": m.group(2), "summary": "(agent meta.json unreadable)"}
+    meta['property'] = m.group(2)
+    meta['round'] = 2 if m.group(1) == 'w2' else 1
     meta['confirmed_by_us'] = {
         "how": "tools/seedverify.sh in a scratch clone of /repo: demo.rs copied to tests/seed_demo.rs, run with and without patch.diff; then the complete suite with the patch",
         "demo_on_pristine_tree": "passes",
